@@ -49,6 +49,8 @@ var c10Queries = []string{
 	"SELECT * FROM t x PARALLEL JOIN u y ON vpanic(x.a) < y.a",
 	"SELECT * FROM t x PARALLEL HASH_JOIN u y ON x.o = y.a",
 	"SELECT * FROM t x PARALLEL LEFT JOIN u y ON x.a = y.a AND vfail(1) = 1",
+	"SELECT * FROM t x PARALLEL JOIN t y ON x.a <= y.a AND x.s",
+	"SELECT * FROM t x PARALLEL RIGHT JOIN t y ON x.a <= y.a AND vfailb()",
 }
 
 // H_C10_queries: malformed / unsupported / failing queries under every
@@ -63,6 +65,13 @@ func H_C10_queries() {
 		"u": []any{Map{"a": float64(2)}, Map{"a": Map{"b": a}}},
 		"a": Map{"b": a},
 	}
+	if qi >= 32 {
+		// the PARALLEL joins with failing conditions get three outer keys (three workers)
+		doc["t"] = append(doc["t"].([]any), Map{"a": float64(11), "s": "y", "o": nil, "arr": []any{}})
+		if oi != 0 && oi != 7 {
+			verif.Assume(false)
+		}
+	}
 	var opts []QueryOption
 	if oi&1 != 0 {
 		opts = append(opts, Wrapped())
@@ -74,6 +83,7 @@ func H_C10_queries() {
 		opts = append(opts, IdomaticArrays())
 	}
 	RegisterFunction("vfail", failingFunc)
+	RegisterFunction("vfailb", failingFunc)
 	RegisterFunction("vpanic", panickingFunc)
 	verif.Opt("schedules", 1)
 	verif.Opt("preempt", 1)
